@@ -354,7 +354,7 @@ func (p *Pipe) NumWrites() int {
 
 func (p *Pipe) waitFor(timeout time.Duration, pred func() bool) bool {
 	deadline := time.Now().Add(timeout)
-	timer := time.AfterFunc(timeout, func() { p.cond.Broadcast() })
+	timer := time.AfterFunc(timeout, func() { p.mu.Lock(); p.mu.Unlock(); p.cond.Broadcast() }) //nolint:staticcheck // see Recorder.WaitFor
 	defer timer.Stop()
 	p.mu.Lock()
 	defer p.mu.Unlock()
@@ -380,7 +380,7 @@ func (p *Pipe) WaitParkedWriter(timeout time.Duration) bool {
 // WaitDrained waits until every fed byte has been taken by the node and a reader is parked again.
 func (p *Pipe) WaitDrained(timeout time.Duration) bool {
 	deadline := time.Now().Add(timeout)
-	timer := time.AfterFunc(timeout, func() { p.rcond.Broadcast() })
+	timer := time.AfterFunc(timeout, func() { p.rmu.Lock(); p.rmu.Unlock(); p.rcond.Broadcast() }) //nolint:staticcheck // see Recorder.WaitFor
 	defer timer.Stop()
 	p.rmu.Lock()
 	defer p.rmu.Unlock()
